@@ -109,7 +109,7 @@ func (p *seqPlan) each(ctx *core.Ctx, batch int, fn func(kind, in string)) {
 			}
 		}
 		r := ctx.Rand("hostile-trees")
-		leaves := append(qt.FullLeaves(), qt.HostileLeaves(r, gen.ValueDict(r, 200), 60, true)...)
+		leaves := append(append(qt.FullLeaves(), qt.ExtraLeaves()...), qt.HostileLeaves(r, gen.ValueDict(r, 200), 60, true)...)
 		for i := 0; i < 400; i++ {
 			t := qt.RandomTree(r, leaves, 1+r.Intn(5))
 			if t.Size() <= 40 {
